@@ -500,8 +500,9 @@ Inductive c08_case : Set :=
 | KRef (t : ety) (xs : list N) (qlen m : N) (src : client_kind)
 (** bodies of element type [t] decoded as [u] *)
 | KWrongType (t u : ety) (xs : list N) (qlen m : N)
-(** a typed-array body under another body format *)
-| KWrongFmt (t : ety) (xs : list N) (bfmt : N)
+(** a typed-array body (bulk, or the generic serde encoding when [gen]) under
+    another body format *)
+| KWrongFmt (t : ety) (xs : list N) (bfmt : N) (gen : bool)
 (** live calls (blocking and async server) *)
 | KNet (rk : route_kind) (ck : client_kind) (t : ety) (xs : list N) (qlen : N).
 
@@ -550,12 +551,13 @@ Definition model_C08 (c : c08_case) : c08_obs :=
              dmap si_elems (route_ref u BODY_BEVE addr (enc_aligned t (HEADER_SIZE + qlen) xs));
              dmap si_elems (route_ref u BODY_BEVE addr (enc_bulk t xs))]
             []
-  | KWrongFmt t xs bfmt =>
-      let m := build (mkBuilder 1 [] (enc_bulk t xs) 0 bfmt false 0) in
+  | KWrongFmt t xs bfmt gen =>
+      let body := if gen then enc_generic t xs else enc_bulk t xs in
+      let m := build (mkBuilder 1 [] body 0 bfmt false 0) in
       mkObs []
             [decode_typed_slice t m; decode_complex_slice t m;
-             route_slice t bfmt (enc_bulk t xs);
-             dmap si_elems (route_ref t bfmt 0 (enc_bulk t xs))]
+             route_slice t bfmt body;
+             dmap si_elems (route_ref t bfmt 0 body)]
             []
   | KNet rk ck t xs qlen =>
       let r := live_call rk ck t qlen 0 xs in
@@ -585,9 +587,10 @@ Definition is_nil {A} (l : list A) : bool := match l with [] => true | _ => fals
       address that is a multiple of the element alignment; and in an aligned
       buffer ([m mod align = 0]) the aligned form IS borrowed, whatever the
       query length.
-    - KWrongType / KWrongFmt: every decode is an error (the one body that
-      carries no element type, the generic empty array, decodes to the empty
-      slice).
+    - KWrongType / KWrongFmt: every decode is an error (under the BEVE
+      format the one body that carries no element type, the generic empty
+      array, decodes to the empty slice; under any other format nothing
+      decodes, that body included).
     - KNet: the call returns the original elements (the aligned form sent to
       a non-borrowing bulk route is an error). *)
 Definition ok_C08 (c : c08_case) (o : c08_obs) : bool :=
@@ -622,7 +625,7 @@ Definition ok_C08 (c : c08_case) (o : c08_obs) : bool :=
           is_err r1 && (if is_nil xs then is_ok [] r2 else is_err r2) && is_err r3 && is_err r4 && is_err r5
       | _ => false
       end
-  | KWrongFmt _ _ _ =>
+  | KWrongFmt _ _ _ _ =>
       match o_res o with
       | [r1; r2; r3; r4] => is_err r1 && is_err r2 && is_err r3 && is_err r4
       | _ => false
@@ -655,7 +658,7 @@ Definition c08_wf (c : c08_case) : bool :=
   | KRef t xs qlen m src => slice_ok t xs && (qlen <? two32) && (m <? two32)
   | KWrongType t u xs qlen m =>
       slice_ok t xs && ety_ok u && negb (tag_eqb t u) && (qlen <? two32) && (m <? two32)
-  | KWrongFmt t xs bfmt => slice_ok t xs && negb (bfmt =? BODY_BEVE) && (bfmt <? two16)
+  | KWrongFmt t xs bfmt _ => slice_ok t xs && negb (bfmt =? BODY_BEVE) && (bfmt <? two16)
   | KNet rk ck t xs qlen =>
       slice_ok t xs && (qlen <? two32) &&
       negb (match rk, ck with RTyped, CAligned => true | _, _ => false end)
